@@ -249,7 +249,7 @@ func genSize(r *kit.Rng, max int) int {
 		return int(r.Range(2, 30))
 	case 9, 10, 11, 12, 13, 14:
 		return int(r.Range(30, 300))
-	case 15, 16, 17:
+	case 15, 16, 17, 18:
 		return int(r.Range(300, 2000))
 	default:
 		return int(r.Range(2000, int64(max)))
@@ -443,6 +443,14 @@ func runC20(c *run.Ctx, s *kit.Summary) {
 	st := &kit.Stream{Name: "c20.observe"}
 	flush := func(force bool) {
 		if force || len(st.Ops) >= 50 {
+			if p := os.Getenv("VERIF_DUMP_OPS"); p != "" { // debugging aid: append the op lines to a file
+				if f, err := os.OpenFile(p, os.O_APPEND|os.O_CREATE|os.O_WRONLY, 0o644); err == nil {
+					for _, o := range st.Ops {
+						f.WriteString(o + "\n")
+					}
+					f.Close()
+				}
+			}
 			st.Diff(c.Driver, s)
 			st = &kit.Stream{Name: "c20.observe"}
 		}
@@ -471,6 +479,8 @@ func runC20(c *run.Ctx, s *kit.Summary) {
 	}
 	for _, sq := range fixed {
 		s.Case(fmt.Sprint("fixed:", sq), true)
+		_, l := observeAll(sq)
+		s.Sample(map[string]interface{}{"op": "c20.observe", "sequence": sq, "impl": l})
 		check(s, st, sq)
 	}
 	n := c.N(500, 20000)
